@@ -450,6 +450,11 @@ func (c *HTTPClient) discover() error {
 		}
 
 		body, err := c.doReq("GET", e, "/info/shards", nil)
+		if err != nil {
+			// whatever the reason (doReq does not mark an endpoint answering 4xx),
+			// this node cannot tell us the topology: do not ask it again
+			e.MarkAsDead()
+		}
 
 		if err == nil {
 			var shards protocol.Shards
